@@ -61,6 +61,21 @@ def _run(ctx, spec):
     if ok:
         pa_ok, closed, axioms, pa_out = vlib.print_assumptions(ctx.coq, pfile, ctx.scratch)
         proofs_ok = proofs_ok and pa_ok
+    coqchk_note = "coqchk: not run in the quick tier"
+    if ok and ctx.tier == "thorough":
+        # independent re-check of the compiled property module and everything it depends on
+        mod = "CR." + pfile[:-2].replace("/", ".")
+        try:
+            cp = subprocess.run(["coqchk", "-silent", "-o", "-R", ".", "CR", mod], cwd=ctx.coq,
+                                stdout=subprocess.PIPE, stderr=subprocess.STDOUT, text=True, timeout=3000)
+            m = __import__("re").search(r"\* Axioms:(.*?)\n\s*\n", cp.stdout, __import__("re").S)
+            axs = " ".join(m.group(1).split()) if m else "?"
+            coqchk_note = "coqchk -silent -o %s: exit %d, axioms: %s" % (mod, cp.returncode, axs)
+            if cp.returncode != 0:
+                ctx.broken.append(("coqchk", mod, cp.stdout[-1500:]))
+                proofs_ok = False
+        except subprocess.TimeoutExpired:
+            coqchk_note = "coqchk timed out"
     if not ok:
         log(out[-4000:])
         ctx.broken.append(("proof", ", ".join(failing) or pfile, out[-1500:]))
@@ -177,7 +192,8 @@ def _run(ctx, spec):
         "checker_cmd": "cd coq && coq_makefile -f _CoqProject -o Makefile && make -j16 %s   # full .vo build, then coqc %s for Print Assumptions" % (" ".join(targets), pfile),
         "trusted_base": BASE_TRUSTED + spec.get("trusted", []) + [
             "Print Assumptions (%s): %s" % (pfile, ("%d theorems closed under the global context" % closed) +
-                                            ("; axioms: " + ", ".join(axioms) if axioms else "; no axioms"))],
+                                            ("; axioms: " + ", ".join(axioms) if axioms else "; no axioms")),
+            coqchk_note],
         "evaluations": len(all_cases),
         "distinct_nontrivial": len(seen),
         "rule": spec.get("rule", ""),
